@@ -30,7 +30,7 @@
 From Coq Require Import List NArith.
 From GV Require Import Base.Ints Gen.Kernel Model.Mirror Proofs.MirrorAuth Proofs.MirrorChain Proofs.MirrorCert
   Proofs.MirrorTotal Proofs.MirrorResumeWit Proofs.MirrorResumeInv Proofs.MirrorResumeStart
-  Proofs.MirrorResumeOps Proofs.MirrorResumeOps4 Proofs.MirrorResumeOps5 Proofs.MirrorResumeAhead2 Proofs.MirrorResume Proofs.MirrorResumeHeight Proofs.MirrorResumeEx.
+  Proofs.MirrorResumeOps Proofs.MirrorResumeOps4 Proofs.MirrorResumeOps5 Proofs.MirrorResumeAhead2 Proofs.MirrorResume Proofs.MirrorResumeHeight Proofs.MirrorResumeEx Proofs.MirrorResumeReload.
 Import ListNotations.
 Local Open Scope N_scope.
 
@@ -146,3 +146,40 @@ Proof.
   repeat split; assumption.
 Qed.
 Print Assumptions C10_resume_hypotheses_satisfiable.
+
+(** * "Without loss": persisted votes are reloaded *)
+
+(** the view / round-store correspondence [Y] is an invariant of every reachable state: for the
+    voting and the next-round view, each vote map is empty or is - up to signer sets, target by
+    target - what loading the view's round-store cell gives; each proposed header of the view is
+    in the cell (by hash) or among the replayed headers; the summary names the most voted block *)
+Theorem C10_view_store_correspondence : forall ih ivs s,
+  1 <= ih -> vwf ivs -> reachable_g ih ivs s -> Y s.
+Proof. exact reachable_correspondence. Qed.
+Print Assumptions C10_view_store_correspondence.
+
+(** after a clean restart: the round store, the replayed headers and the committed headers are
+    all still there; and if the restarted mirror is at the same stored position, its voting and
+    its next-round view hold again every signer (prevotes and precommits, target by target) that
+    the view held before, and for every proposed header one with the same hash (a replayed header
+    is handed back by the round store only together with a stored precommit for its hash).
+    PARTIAL: the committing view is not covered; when the restarted mirror is AHEAD (known
+    finding) only the first part applies - the votes are in the round store, not in a view. *)
+Theorem C10_persisted_votes_reloaded_partial : forall ih ivs s s',
+  1 <= ih -> vwf ivs -> reachable_g ih ivs s -> xstep s XRestart = Ok (s', 0) ->
+  (st_rounds s' = st_rounds s /\ st_replayed s' = st_replayed s /\
+   forall h x, In (h, x) (st_hdrs s) -> In (h, x) (st_hdrs s')) /\
+  (st_nhr s' = st_nhr s ->
+     (votes_held_again (k_vot s) (k_vot s') /\ phs_held_again (st_replayed s) (k_vot s) (k_vot s')) /\
+     (votes_held_again (k_nxt s) (k_nxt s') /\ phs_held_again (st_replayed s) (k_nxt s) (k_nxt s'))).
+Proof. exact restart_reloads. Qed.
+Print Assumptions C10_persisted_votes_reloaded_partial.
+
+(** the same after a crash that let every write of the operation land, relative to the state the
+    uninterrupted operation produces *)
+Theorem C10_persisted_votes_reloaded_after_full_crash_partial : forall ih ivs s o s1 r k s',
+  1 <= ih -> vwf ivs -> reachable_g ih ivs s -> step s o = Ok (s1, r) -> wf_op o r ->
+  (List.length (st_log s1) - List.length (st_log s) <= k)%nat ->
+  xstep s (XCrash k o) = Ok (s', r) -> reloaded s1 s'.
+Proof. exact crash_after_all_writes_reloads. Qed.
+Print Assumptions C10_persisted_votes_reloaded_after_full_crash_partial.
